@@ -51,6 +51,9 @@ type run struct {
 	intr    []intrusion
 	intrIdx []int // wire index of each injected request
 	modTok  map[string]bool
+	journal func() []lab.Effect
+	live    func(tok string) bool
+	store   string
 }
 
 func tokenOf(x *lab.Exchange) string {
@@ -186,19 +189,44 @@ func (rn *run) menu(next *lab.Exchange, guid protocol.GUID, full bool) []intrusi
 }
 
 // history runs the four protocols honestly on one server with the explorer choosing intrusions.
-func history(c *explore.Ctx, k keys.Kind, full bool) (rn *run, honestErr map[string]error) {
+func history(c *explore.Ctx, k keys.Kind, full bool, store string) (rn *run, honestErr map[string]error) {
 	ctx := context.Background()
-	rn = &run{rec: &lab.Recorder{}, genuine: map[int][]byte{}, tokens: map[string]string{}, modTok: map[string]bool{}}
-	srv := lab.NewMemServer("all", "owner1")
-	rn.srv = srv
-	srv.Mem.OwnerModules = func(ctx context.Context, _ protocol.GUID, _ serviceinfo.Devmod, _ []string) []lab.NamedModule {
-		tok, _ := srv.Mem.TokenFromContext(ctx)
-		rn.modTok[tok] = true
-		return []lab.NamedModule{{Name: "vmod", Mod: &lab.OwnerScript{Name: "vmod", Rec: rn.rec, Rounds: [][]lab.Msg{{{Name: "m", Body: []byte{1}}}}}}}
+	rn = &run{rec: &lab.Recorder{}, genuine: map[int][]byte{}, tokens: map[string]string{}, modTok: map[string]bool{}, store: store}
+	var srv *lab.Server
+	var wire *lab.Wire
+	if store == "sqlite" {
+		s, sj, done := newSQLServer(k)
+		defer done()
+		srv = s
+		wire = lab.NewWire(srv)
+		sj.stamp = func() int { return wire.Serving }
+		rn.journal = func() []lab.Effect { return sj.j }
+		// session rows are looked up before the database is closed
+		liveCache := map[string]bool{}
+		rn.live = func(tok string) bool { return liveCache[tok] }
+		defer func() {
+			for _, x := range wire.Log {
+				for _, t := range []string{x.ReqHeader.Get("Authorization"), x.RespHeader.Get("Authorization")} {
+					if t = strings.TrimPrefix(t, "Bearer "); t != "" {
+						liveCache[t] = sj.live(t)
+					}
+				}
+			}
+		}()
+	} else {
+		srv = lab.NewMemServer("all", "owner1")
+		srv.Mem.OwnerModules = func(ctx context.Context, _ protocol.GUID, _ serviceinfo.Devmod, _ []string) []lab.NamedModule {
+			tok, _ := srv.Mem.TokenFromContext(ctx)
+			rn.modTok[tok] = true
+			return []lab.NamedModule{{Name: "vmod", Mod: &lab.OwnerScript{Name: "vmod", Rec: rn.rec, Rounds: [][]lab.Msg{{{Name: "m", Body: []byte{1}}}}}}}
+		}
+		wire = lab.NewWire(srv)
+		srv.Mem.Stamp = func() int { return wire.Serving }
+		rn.journal = func() []lab.Effect { return srv.Mem.Journal }
+		rn.live = srv.Mem.Live
 	}
-	wire := lab.NewWire(srv)
+	rn.srv = srv
 	rn.wire = wire
-	srv.Mem.Stamp = func() int { return wire.Serving }
 	honestErr = map[string]error{}
 	dev := lab.NewDevice(k, protocol.X509KeyEnc, "device")
 	var guid protocol.GUID
@@ -285,7 +313,10 @@ func judge(rn *run, honestErr map[string]error, k keys.Kind) {
 		names = append(names, in.name)
 	}
 	desc := strings.Join(names, " + ")
-	repl := map[string]any{"kind": k.Name, "intrusions": names}
+	if rn.store == "sqlite" {
+		desc = "sqlite store: " + desc
+	}
+	repl := map[string]any{"kind": k.Name, "intrusions": names, "store": rn.store}
 	viol := func(key, format string, a ...any) {
 		r.Violation(key, fmt.Sprintf("[%s] ", desc)+fmt.Sprintf(format, a...), repl)
 	}
@@ -301,7 +332,7 @@ func judge(rn *run, honestErr map[string]error, k keys.Kind) {
 		return -1
 	}
 	// (1) every effect has a witness: under its token, the prerequisite messages were accepted in order, the last one being the exchange that caused it
-	for _, ef := range rn.srv.Mem.Journal {
+	for _, ef := range rn.journal() {
 		kind := ef.Kind
 		if kind != "AddVoucher" && kind != "SetRVBlob" && kind != "ReplaceVoucher" {
 			continue
@@ -361,7 +392,7 @@ func judge(rn *run, honestErr map[string]error, k keys.Kind) {
 		if accepted(x) && x.RespType != 0 {
 			viol("accepted-with-"+in.tokCls+"-token", "request type %d with a %s token was answered with message %d instead of an error", in.msg, in.tokCls, x.RespType)
 		}
-		for _, ef := range rn.srv.Mem.Journal {
+		for _, ef := range rn.journal() {
 			if ef.At == rn.intrIdx[i] && (ef.Kind == "AddVoucher" || ef.Kind == "SetRVBlob" || ef.Kind == "ReplaceVoucher") {
 				viol("effect-with-"+in.tokCls+"-token", "request type %d with a %s token caused %s", in.msg, in.tokCls, ef.Kind)
 			}
@@ -374,7 +405,7 @@ func judge(rn *run, honestErr map[string]error, k keys.Kind) {
 			}
 		}
 		var adds, blobs, repls int
-		for _, ef := range rn.srv.Mem.Journal {
+		for _, ef := range rn.journal() {
 			if ef.Token == "" {
 				continue
 			}
@@ -419,7 +450,7 @@ func judge(rn *run, honestErr map[string]error, k keys.Kind) {
 	}
 	// store-level: no session state may remain for dead tokens
 	for tk := range deadAt {
-		if rn.srv.Mem.Live(strings.TrimPrefix(tk, "Bearer ")) {
+		if rn.live(strings.TrimPrefix(tk, "Bearer ")) {
 			viol("session-state-survives", "session state of a token that finished or errored is still present in the store")
 		}
 	}
@@ -619,11 +650,19 @@ func main() {
 		kinds = []string{"ec256", "rsa2048restr"}
 	}
 	r.Rule("a state is a request history on ONE server instance (real handler, all four responders, one journaling store); a transition is one real ServeHTTP call. Honest principals run DI, TO0, TO1, TO2 (with an owner module) in order; half-open sessions of every protocol exist besides them. Before EVERY honest request the explorer may inject one adversarial request from the menu {16 message types incl. response types and unknown types} x {replay of the genuine request of this run, genuine request of another device (thorough), crafted well-formed bodies such as Done with the public ProveDevice nonce, plaintext 66/68, SetHMAC, error messages naming each protocol / unknown previous types} x {no token, this session's, another session's of the same protocol, another protocol's, a finished session's, five damaged forms}. Deviation bound 1 is complete (thorough: bound 2 for the injection points of DI/TO0/TO1). Invariants on every history: every AddVoucher / SetRVBlob / ReplaceVoucher / module start has a witness (the prerequisite messages accepted in order under its token, the last being the exchange that caused it); requests with no / foreign-protocol / finished / damaged token are answered with an error, cause no effect and do not disturb the honest runs; after a final message, an error answer or a client error message the token is never accepted again and its session state is gone. states = histories, transitions = requests served. Additional layer: the AUTHENTICATED TO2 client itself (real client, real tunnel) deviates from the order: skips 66, skips the whole service info phase, skips both, or sends 70 / 68 / 66 / 64 once more after Done2, with and without credential reuse; no module invocation or voucher replacement may happen without its prerequisite messages, nothing is accepted after the final message. Restart layer: the authenticated client abandons a run before 66 / the first or second 68 / 70 (nothing more is sent, the session stays open) and starts over through the SAME HTTP transport, so that its HelloDevice presents the live token, then skips 66, the service info phase, both, or nothing; over the memory store and over the real SQLite store: steps of the abandoned run never count for the new one (no voucher replacement, the skipping run fails), an honest second run is onboarded. Token layer: on the real SQLite token service the last message of DI and of TO0 is sent with its own session id but a MAC that is bit-flipped, zeroed, borrowed from another live session, shortened, extended or absent: refused, no voucher / blob stored. Hang-up layer: the client's request context is cancelled while the server processes the final message of DI / TO0 (after the effect): no session row remains and the final message sent again under the same token is refused. Without-hello layer (memory and SQLite store): OwnerSign (22) and ProveToRV (32) produced by the REAL clients and signed by the genuine owner / device, naming the all-zero nonce, the nonce of an earlier finished session or all-0xff, are sent under {no token, a token freshly issued for TO0 / TO1, live DI / TO1 / TO2 session tokens, the tokens of a finished TO0 / TO1 session and of an errored TO0 session}: never answered with 23 / 33, no blob stored; control: with a Hello behind them both protocols complete.")
+	type hcfg struct{ kind, store string }
+	var hcfgs []hcfg
 	for _, kn := range kinds {
+		hcfgs = append(hcfgs, hcfg{kn, "memory"})
+	}
+	hcfgs = append(hcfgs, hcfg{kinds[0], "sqlite"})
+	defer cleanupSQLDir()
+	for _, hc := range hcfgs {
+		kn := hc.kind
 		k := keys.KindByName(kn)
 		var mu sync.Mutex
 		st := explore.ExploreParallel(bound, 16, func(c *explore.Ctx) {
-			rn, herr := history(c, k, !r.Quick())
+			rn, herr := history(c, k, !r.Quick(), hc.store)
 			r.Evaluations.Add(1)
 			mu.Lock()
 			if len(rn.intr) == 1 && len(rn.intr[0].name) > 0 {
@@ -633,7 +672,7 @@ func main() {
 			if len(rn.intr) == 0 {
 				for _, p := range []string{"DI", "TO0", "TO1", "TO2"} {
 					if herr[p] != nil {
-						r.Violation("honest-history-fails:"+p, fmt.Sprintf("%s: fault-free history: %s fails: %v", kn, p, herr[p]), nil)
+						r.Violation("honest-history-fails:"+p, fmt.Sprintf("%s/%s: fault-free history: %s fails: %v", kn, hc.store, p, herr[p]), nil)
 					}
 				}
 			}
